@@ -40,6 +40,7 @@ type proc struct {
 	out    string        // state file
 	done   chan struct{}
 	q      chan []byte // input lines, written to the crew's stdin in order
+	st     *sio.Stdio
 }
 
 // Write receives what the Stdio couplings print, synchronously with the goroutine that prints it: the
@@ -97,6 +98,7 @@ func startProc(stateIn, stateOut string) *proc {
 			}
 		}
 	}()
+	p.st = st
 	st.In, st.Out = pr, p
 	st.StateInputFilename, st.StateOutputFilename = stateIn, stateOut
 	st.WriteStatePerMsg = true
@@ -121,6 +123,9 @@ func startProc(stateIn, stateOut string) *proc {
 	return p
 }
 
+// stop ends the process the way siostd ends: the loop stops, the couplings' goroutines finish what they are doing
+// (Stdio.Stop waits for them and writes the state once more).  Afterwards nothing is printed or written any more:
+// the state file and the emissions seen so far are final.
 func (p *proc) stop() {
 	p.cancel()
 	p.stdin.Close()
@@ -129,6 +134,24 @@ func (p *proc) stop() {
 	case <-p.done:
 	case <-time.After(2 * time.Second):
 	}
+	stopped := make(chan struct{})
+	go func() {
+		p.st.Stop(context.Background())
+		close(stopped)
+	}()
+	select {
+	case <-stopped:
+	case <-time.After(2 * time.Second):
+	}
+}
+
+// leftovers: what the process printed after the last barrier was taken
+func (p *proc) leftovers() T {
+	p.mu.Lock()
+	e := append(append([]interface{}{}, p.atMark...), p.emits...)
+	p.atMark, p.emits = nil, nil
+	p.mu.Unlock()
+	return mach.EncMsgs(generic(e).([]interface{})).(T)
 }
 
 func (p *proc) write(msg interface{}) {
@@ -303,6 +326,7 @@ func stdioRun(id int, rng *rand.Rand, maxlen int, dir string, given []T) O {
 			bars++
 			carried = append(carried, em...)
 			p.stop()
+			carried = append(carried, p.leftovers()...)
 			gen++
 			prev := p.out
 			next := filepath.Join(dir, "state"+string(rune('a'+gen%26))+".json")
